@@ -367,7 +367,7 @@ def direction(prog, fn, vals, cursor):
                 if hasattr(base, 'kind') and strip(base) is cursor:
                     dirs.add('L' if a[2] == 'left' else 'R')
                     continue
-                dirs.add('?link(%s).%s' % (show(base, 2) if hasattr(base, 'kind') else base, a[2]))
+                dirs.add('?' + atom_str(a))
             elif a[0] == 'const' and a[1] == 'EMPTY_REF':
                 # a gate may return EMPTY_REF; that is the value of an empty link and ends the loop
                 continue
